@@ -533,7 +533,7 @@ func c32LinVsched(sc c32LinScenario, bound int) vsched.Scenario {
 func TestVerifC32Lin(t *testing.T) {
 	r := ev.Start(t, "C32")
 	defer r.Finish()
-	bound := ev.Pick(r, 3, 5)
+	bound := ev.Pick(r, 2, 4)
 	var execs int64
 	outcomes := 0
 	for _, sc := range c32LinScenarios() {
